@@ -123,6 +123,17 @@ def contains(t, sub):
     return any(x == sub for x in subterms(t))
 
 
+def substitute(t, m):
+    """replace subterms according to dict m (term -> term)"""
+    if not isinstance(t, tuple):
+        return t
+    if t in m:
+        return m[t]
+    if t[0] in ('c', 'v', 'h', 'str', 'fn', 'flt'):
+        return t
+    return tuple(substitute(x, m) if isinstance(x, tuple) else x for x in t)
+
+
 def rooted_at(key, base):
     """is location `key` inside the object(s) reachable from pointer term base"""
     k = key
@@ -291,7 +302,7 @@ class Effect:
 
 
 class State:
-    __slots__ = ('mem', 'conds', 'effects', 'havoc_roots', 'loopdepth', 'scope')
+    __slots__ = ('mem', 'conds', 'effects', 'havoc_roots', 'loopdepth', 'scope', 'loops')
 
     def __init__(self):
         self.mem = {}
@@ -300,6 +311,7 @@ class State:
         self.havoc_roots = []  # pointer terms whose pointees were clobbered by calls
         self.loopdepth = 0
         self.scope = ''
+        self.loops = []        # [(loop node, {key: (havoc atom, value before the loop)})]
 
     def copy(self):
         s = State()
@@ -309,6 +321,7 @@ class State:
         s.havoc_roots = list(self.havoc_roots)
         s.loopdepth = self.loopdepth
         s.scope = self.scope
+        s.loops = list(self.loops)
         return s
 
 
@@ -317,6 +330,7 @@ class Path:
         self.mem = state.mem
         self.conds = state.conds
         self.effects = state.effects
+        self.loops = state.loops
         self.end = end          # 'return' | 'end' | 'loopback' | 'noreturn'
         self.ret = ret
         self.node = node        # ReturnStmt / loop node
@@ -740,12 +754,15 @@ class _Activation:
         st = st.copy()
         keys, calls = self.assigned_keys(parts, st)
         tag = 'loop@%s' % cast.node_line(n)
+        lmap = {}
+        st.loops.append((n, lmap))
         for kind_, x in keys:
             if kind_ == 'decl':
                 key = ('v', self.varname(x))
                 self.clear_var(st, key)
                 st.mem[key] = fresh(tag + ':' + key[1])
                 self.e.types[st.mem[key]] = cast.qual_type(x)
+                lmap[key] = (st.mem[key], None)
                 continue
             try:
                 alts = self.lvalue(x, st, side_effects=False)
@@ -754,12 +771,15 @@ class _Activation:
             for s_, key in alts:
                 if key is None:
                     continue
-                # writes through a loop-variant pointer/index: clobber the whole base object
+                if key in lmap:
+                    continue
+                pre = st.mem.get(key, key)
                 for kk in [kk for kk in st.mem if kk == key or rooted_at(kk, ('&', key))]:
                     del st.mem[kk]
                 h = fresh(tag + ':' + fmt(key))
                 self.e.types[h] = self.e.types.get(key) or cast.qual_type(x)
                 st.mem[key] = h
+                lmap[key] = (h, pre)
                 if key[0] == 'i':
                     st.havoc_roots.append(key[1])      # other elements of the array may be written too
                 elif key[0] == 'f' and not (key[1][0] in ('v', '&')):
@@ -1442,6 +1462,11 @@ class _Activation:
                 if name in ('__builtin_expect',):
                     out.append((s, vals[0]))
                     continue
+                if name in ('memcpy', '__builtin_memcpy') and len(vals) == 3:
+                    s2 = self.struct_memcpy(s, vals, argnodes, n)
+                    if s2 is not None:
+                        out.append((s2, vals[0]))
+                        continue
                 if name in self.e.inline and self.depth < self.e.inline_depth:
                     u2, f2 = self.e.find_fn(name)
                     if f2 is not None:
@@ -1475,6 +1500,33 @@ class _Activation:
                             self.clobber_term(s2, v, 'call:' + desc)
             out.append((s2, res))
         return out
+
+    def struct_memcpy(self, st, vals, argnodes, node):
+        """memcpy(&X, p, sizeof(T)) with X a struct T object: field-wise copy X = *p"""
+        dst, src, ln = vals
+        if dst[0] != '&' or not is_c(ln):
+            return None
+        a0 = cast.strip_all_casts(argnodes[0])
+        if cast.kind(a0) != 'UnaryOperator' or a0.get('opcode') != '&':
+            return None
+        qt = a0['inner'][0].get('type', {}).get('qualType', '')
+        fields = self.record_fields(cast.qual_type(a0['inner'][0]))
+        sz = self.e.sizeof.get(qt)
+        if fields is None or sz is None or sz != ln[1]:
+            return None
+        s2 = st.copy()
+        key = dst[1]
+        self.clear_var(s2, key)
+        for fname, fqt in fields:
+            skey = ('f', src, fname)
+            self.e.types.setdefault(skey, fqt)
+            s2.mem[('f', ('&', key), fname)] = self.read(s2, skey)
+            self.e.types.setdefault(('f', ('&', key), fname), fqt)
+        ef = Effect('call', 'memcpy', tuple(vals), node, vals[0], extra='struct-copy')
+        ef.inloop = s2.loopdepth
+        ef.frame = self.prefix
+        s2.effects.append(ef)
+        return s2
 
     def param_is_const_ptr(self, name, callee, idx):
         ptypes = None
